@@ -31,7 +31,12 @@ RULE = ("all-shapes sweep (see exhaustive_subspace), then geometries: shapes H,W
         "point (values, mask content, pixel scales, origin) is checked against the generated class-layer model and the specification; where the util function / a second entry "
         "point returned exactly the same thing it is judged once. Arguments equal to the documented default (origin (0,0), centre (0,0), invert False) are NOT passed, so the "
         "defaults themselves are exercised (12% of the geometries have origin (0,0)). Sibling mask cases (same shape and scales / other centre, same centre / other scales) follow "
-        "every circular case in the same process. Non-trivial = non-square shape or "
+        "every circular case in the same process. INPUT KINDS (op kinds / kinds1, 30% of the mask-constructor cases): the same values as tuples / lists / float64 ndarrays / "
+        "numpy scalars / Python ints / int64 arrays / float32 (exact stream) for shape, pixel scales, origin, centre, radii and query coordinates; integer-typed / float32 / list query grids; "
+        "masks as lists, 0-1 integer / uint8 / float arrays; integer coordinates in geometries with non-integral origin; fully masked masks, single unmasked pixels, 1 x 1 shapes; every mutable "
+        "argument fingerprinted after every call and re-used for the next call; every scalar query also through a directly constructed Geometry2D / Geometry1D; sibling entry points "
+        "Grid2DIrregular.from_pixels_and_mask, grid_2d_via_mask_from / grid_2d_via_shape_native_from, Grid1D.uniform_from_zero; history step regrid (the query Grid2D overwritten in place and "
+        "queried again). RARE constructor states: negative radius, inner = outer on a tie radius, inner > outer, unsorted anti-annular radii, axis ratios > 1 and < 0. Non-trivial = non-square shape or "
         "unequal scales or non-zero origin/centre or a history; distinct = distinct JSON input.")
 EXHAUSTIVE = {
     "quick": "every shape H x W with H, W <= 6 and every pixel of it: pixel-centre grid, centre -> (row, column) -> flat index "
@@ -179,6 +184,48 @@ def rand_mask(rng, H, W):
     if all(all(r) for r in m): m[rng.randrange(H)][rng.randrange(W)] = False
     return m
 
+# ----------------------------------------------------------------------------- INPUT KINDS
+# The same VALUES in the representations a caller may use.  The model sees only the values; the implementation must return the same thing
+# whatever the representation, and must leave every mutable argument as it was.
+SEQ_KINDS = ["tuple", "list", "nd", "npf", "int", "ndint", "npint", "f32", "npf32"]
+def is_integral(vals): return all(Fraction(x).denominator == 1 for x in vals)
+def f32_exact(vals): return all(float(np.float32(fl(x))) == fl(x) for x in vals)
+def kind_ok(vals, kind, exact):
+    if kind in ("int", "ndint", "npint"): return is_integral(vals)
+    if kind in ("f32", "npf32"): return bool(exact) and f32_exact(vals)     # float32 arithmetic is exact on the (dyadic) exact stream only
+    return True
+def as_kind(vals, kind, exact=False):
+    """the rationals `vals` as a tuple / list / float64 ndarray / tuple of np.float64 / tuple of Python ints / int64 ndarray / tuple of
+    np.int64 / float32 ndarray / tuple of np.float32; an infeasible kind (non-integral values, not float32-exact) falls back to the tuple"""
+    if not kind_ok(vals, kind, exact): kind = "tuple"
+    v = [fl(x) for x in vals]
+    if kind == "list": return list(v)
+    if kind == "nd": return np.array(v, dtype=np.float64)
+    if kind == "npf": return tuple(np.float64(x) for x in v)
+    if kind == "int": return tuple(int(Fraction(x)) for x in vals)
+    if kind == "ndint": return np.array([int(Fraction(x)) for x in vals], dtype=np.int64)
+    if kind == "npint": return tuple(np.int64(int(Fraction(x))) for x in vals)
+    if kind == "f32": return np.array(v, dtype=np.float32)
+    if kind == "npf32": return tuple(np.float32(x) for x in v)
+    return tuple(v)
+def scalar_kind(x, kind, exact=False):
+    r = as_kind([x], kind if kind in ("int", "npf", "npint", "npf32") else "tuple", exact)
+    return r[0]
+
+class Prints:
+    """fingerprints of the (mutable) objects handed to the implementation: compared after the calls"""
+    def __init__(self): self.items = []
+    def add(self, obj):
+        if isinstance(obj, np.ndarray): self.items.append((obj, obj.copy()))
+        elif isinstance(obj, list): self.items.append((obj, [list(r) if isinstance(r, list) else r for r in obj]))
+        return obj
+    def ok(self):
+        for obj, cp in self.items:
+            if isinstance(obj, np.ndarray):
+                if not same_arr(obj, cp): return False
+            elif obj != cp or any(type(a) is not type(b) for a, b in zip(obj, cp)): return False
+        return True
+
 def factor_pairs(n):
     return [[a, n // a] for a in range(1, n + 1) if n % a == 0]
 
@@ -236,6 +283,61 @@ def gen_geometry1_cases(rng, exact):
     if all(m): m[rng.randrange(n)] = False
     yield dict(base, op="grid1mask", m=m)
 
+def gen_kinds(rng, exact):
+    """INPUT KINDS: one geometry, its arguments handed over as tuples / lists / ndarrays / Python ints / numpy scalars / float32, the mask as
+    a list of lists / integer / float ndarray, the query grids integer-typed / float32 / lists; half of the geometries are INTEGRAL (integer
+    scales, origins and query coordinates) so that the integer kinds apply; fully masked masks and 1 x 1 shapes are included"""
+    mode = rng.random()
+    integral = mode < 0.25                   # everything integral
+    intpts = mode < 0.7                      # integer query coordinates (in a geometry with non-integral origin / scales when not `integral`)
+    (H, W), (sy, sx), (oy, ox) = rand_geom(rng, exact)
+    if rng.random() < 0.08: H = W = 1
+    if intpts and not integral and exact:
+        # power-of-two scales, origin a quarter-pixel multiple: (integer - origin) / scale is exact
+        sy, sx = Fraction(rng.choice([1, 1, 2, 2, 4, 8, 16]), 4), Fraction(rng.choice([1, 1, 2, 2, 4, 8, 16]), 4)     # mostly <= 1: an integer coordinate shifted by a fraction changes pixel
+        oy, ox = sy * Fraction(rng.randint(-12, 12), 4), sx * Fraction(rng.randint(-12, 12), 4)
+    if integral:
+        sy, sx = (Fraction(rng.choice([1, 2, 4])), Fraction(rng.choice([1, 2, 4]))) if exact else (Fraction(rng.choice([1, 2, 3, 5])), Fraction(rng.choice([1, 2, 3, 7])))
+        oy, ox = Fraction(rng.randint(-3, 3)), Fraction(rng.randint(-3, 3))
+        if exact: oy, ox = oy * sy, ox * sx
+    def ipts(k):
+        out = []
+        for _ in range(k):
+            for _ in range(20):
+                c = [Fraction(rng.randint(math.floor(oy - H * sy / 2) - 1, math.ceil(oy + H * sy / 2) + 1)),
+                     Fraction(rng.randint(math.floor(ox - W * sx / 2) - 1, math.ceil(ox + W * sx / 2) + 1))]
+                if exact or not (in_margin(pixel_pos(H, sy, oy, c[0], True)) or in_margin(pixel_pos(W, sx, ox, c[1], False))): break
+            out.append([S(c[0]), S(c[1])])
+        return out
+    pts = ipts(4) if intpts else rand_points(rng, H, W, sy, sx, oy, ox, exact, 3)
+    pix = [[S(rng.randint(-1, H + 1)), S(rng.randint(-1, W + 1))] for _ in range(3)] if intpts else rand_pix(rng, H, W, exact, 2)
+    seq = ["list", "nd", "npf", "int", "ndint", "npint"] + (["f32", "npf32"] if exact else [])
+    m = rand_mask(rng, H, W)
+    u = rng.random()
+    if u < 0.12: m = [[True] * W for _ in range(H)]                                   # empty selection: nothing unmasked
+    elif u < 0.24:                                                                      # a single unmasked pixel
+        m = [[True] * W for _ in range(H)]; m[rng.randrange(H)][rng.randrange(W)] = False
+    kinds = {"sh": rng.choice(["int", "list", "npint"]), "ps": rng.choice(seq), "org": rng.choice(seq), "c": rng.choice(seq), "p": rng.choice(seq),
+             "mask": rng.choice(["list", "listint", "i64", "u8", "f64", "bool"])}
+    yield {"op": "kinds", "exact": exact, "shape": [H, W], "s": [S(sy), S(sx)], "o": [S(oy), S(ox)], "m": m, "kinds": kinds,
+           "pts": pts, "pix": pix, "gk": [rng.choice(GRID_KINDS) for _ in range(4)],
+           # every query coordinate in its own representation, an integer one among them
+           "ck": [rng.choice(["int", "ndint", "npint"]), rng.choice(["int", "ndint", "npint"]), rng.choice(["int", "ndint", "npint", "list", "nd"]), rng.choice(seq)], "pk": [rng.choice(["int", "ndint", "npint"])] + [rng.choice(seq) for _ in range(3)],
+           "cont": [rng.choice(factor_pairs(len(pts))), rng.choice(factor_pairs(len(pix)))]}
+
+def gen_kinds1(rng, exact):
+    (n,), (s,), (o,) = rand_geom(rng, exact, dims=1)
+    if rng.random() < 0.5:
+        s = Fraction(rng.choice([1, 2, 4])) if exact else Fraction(rng.choice([1, 2, 3, 5]))
+        o = Fraction(rng.randint(-3, 3)) * (s if exact else 1)
+    m = [rng.random() < 0.4 for _ in range(n)]
+    u = rng.random()
+    if u < 0.15: m = [True] * n
+    elif u < 0.3: m = [True] * n; m[rng.randrange(n)] = False
+    seq = ["list", "nd", "npf", "int", "ndint", "npint"] + (["f32", "npf32"] if exact else [])
+    kinds = {"sh": rng.choice(["int", "list", "npint"]), "ps": rng.choice(seq), "org": rng.choice(seq), "mask": rng.choice(["list", "listint", "i64", "u8", "f64", "bool"])}
+    yield {"op": "kinds1", "exact": exact, "n": n, "s": S(s), "o": S(o), "m": m, "kinds": kinds}
+
 def sibling_geoms(rng, exact, H, W, sy, sx, oy, ox):
     """geometries that differ from (H, W, s, o) in ONE attribute each: origin, pixel scales, shape"""
     if exact:
@@ -258,7 +360,7 @@ def gen_session(rng, exact):
     for _ in range(rng.randint(9, 14)):
         k = rng.randrange(len(objs))
         (h, w), (a, b), (c, d) = geoms[k]
-        do = rng.choice(["extent", "extent", "central", "pix", "scaled", "gc", "gi", "gp", "gs", "grid", "grid", "edit", "edit", "extentgrid"])
+        do = rng.choice(["extent", "extent", "central", "pix", "scaled", "gc", "gi", "gp", "gs", "grid", "grid", "edit", "edit", "extentgrid", "regrid"])
         st = {"k": k, "do": do, "held": rng.random() < 0.5}
         if do == "pix": st["c"] = rand_points(rng, h, w, a, b, c, d, exact, 1)[0]
         elif do == "scaled": st["p"] = rand_pix(rng, h, w, exact, 1)[0]
@@ -268,6 +370,10 @@ def gen_session(rng, exact):
             st["g"] = rand_pix(rng, h, w, exact, 2); st["cont"] = rng.choice(factor_pairs(len(st["g"])))
         elif do == "edit":
             st["at"] = [rng.randrange(h), rng.randrange(w)]; st["val"] = rng.random() < 0.5
+        elif do == "regrid":
+            # the SAME Grid2D object: queried, its entries overwritten in place by the user, queried again through the same geometry
+            st["g"] = rand_points(rng, h, w, a, b, c, d, exact, 2); st["cont"] = rng.choice(factor_pairs(len(st["g"])))
+            st["g2"] = rand_points(rng, h, w, a, b, c, d, exact, 2); st["which"] = rng.choice(["gc", "gi", "gp"])
         steps.append(st)
         u = rng.random()
         if do != "edit":
@@ -429,17 +535,29 @@ def gen_mask_cases(rng, exact, kinds):
         if ties and rng.random() < 0.5:
             rad0 = rad
             rad = lambda: rng.choice(ties) if rng.random() < 0.6 else rad0()      # a radius that passes exactly through pixel centres
+        if rng.random() < 0.3:
+            # INPUT KINDS of the constructor arguments (lists / ndarrays / Python ints / numpy scalars / float32); infeasible kinds fall back
+            # (float32 only where the value is stored or compared, not where it would make the radial arithmetic single precision)
+            seq = ["list", "nd", "npf", "int", "ndint", "npint"]
+            base["kinds"] = {"sh": rng.choice(["list", "npint", "int"]), "ps": rng.choice(seq), "c": rng.choice(seq), "origin": rng.choice(seq + ["f32", "npf32"]),
+                             "r": rng.choice(["int", "npf", "npint", "npf32"])}
         for _ in range(20):
+            # RARE STATES are constructed deliberately: a negative radius (nothing unmasked), inner = outer on a radius that passes exactly
+            # through pixel centres (a one-pixel-wide ring), inner > outer, the three anti-annular radii in any order, axis ratios > 1 and < 0
             if kind == "circ":
-                inp = dict(base, op="circ", r=[S(rad())])
+                inp = dict(base, op="circ", r=[S(rad() if rng.random() < 0.94 else -rad() - f)])
             elif kind == "ann":
                 a, b = sorted([rad(), rad()]); inp = dict(base, op="ann", r=[S(a), S(b)])
-                if rng.random() < 0.1: inp["r"] = [S(b), S(a)]          # inner > outer: empty annulus
+                u = rng.random()
+                if u < 0.1: inp["r"] = [S(b), S(a)]          # inner > outer: empty annulus
+                elif u < 0.2: inp["r"] = [S(b), S(b)]        # inner = outer
             elif kind == "anti":
                 a, b, c = sorted([rad(), rad(), rad()]); inp = dict(base, op="anti", r=[S(a), S(b), S(c)])
+                if rng.random() < 0.15:
+                    rr = [a, b, c]; rng.shuffle(rr); inp["r"] = [S(v) for v in rr]
             else:
                 def one():
-                    q = Fraction(rng.choice([1, 2, 3, 4]), 4)
+                    q = Fraction(rng.choice([1, 2, 3, 4]), 4) if rng.random() < 0.85 else Fraction(rng.choice([5, 8, -2, -4]), 4)
                     ang, c, s = rand_angle(rng, arbitrary)
                     R = rad()
                     return [S(R), S(q), S(ang), S(c), S(s)]
@@ -484,6 +602,10 @@ def gen_inputs(tier, rng):
         yield from gen_derived(rng, exact=(i % 3 != 2))
     for i in range(40 if big else 6):
         yield from gen_derived1(rng, exact=(i % 3 != 2))
+    for i in range(200 if big else 24):
+        yield from gen_kinds(rng, exact=(i % 3 != 2))
+    for i in range(60 if big else 9):
+        yield from gen_kinds1(rng, exact=(i % 3 != 2))
     for i in range(500 if big else 45):
         yield from gen_mask_cases(rng, exact=(i % 3 != 2), kinds=["circ", "ann", "anti", "ell", "ellann"])
 
@@ -502,11 +624,22 @@ def check_cs(ang, c, s):
     if abs(math.cos(a) - float(c)) > 1e-9 or abs(math.sin(a) - float(s)) > 1e-9:
         raise ValueError("harness input inconsistent: (cos, sin) does not belong to the angle")
 
-def grid_obj(aa, pts, cont=None):
-    """the points as a Grid2D (the geometry methods want an object with a mask); its OWN native shape `cont` and pixel scale 1 are
-    unrelated to the geometry that is queried"""
+GRID_KINDS = ["list", "f64", "listint", "i64", "i32", "f32"]
+def grid_obj(aa, pts, cont=None, kind=None, exact=False):
+    """the points as a Grid2D (the geometry methods want an object with a mask); its OWN native shape `cont`, pixel scales and origin are
+    unrelated to the geometry that is queried.  kind: how the values are handed over (list of lists / float64 / integer-typed / float32
+    ndarray); integer kinds need integral values, float32 needs float32-exact values on the exact stream, else float64 is used"""
     cont = tuple(cont) if cont else (len(pts), 1)
-    return aa.Grid2D.no_mask(values=[[fl(p[0]), fl(p[1])] for p in pts], shape_native=cont, pixel_scales=1.0)
+    flat = [x for p in pts for x in p]
+    vals = [[fl(p[0]), fl(p[1])] for p in pts]
+    if kind in ("listint", "i64", "i32") and is_integral(flat):
+        ints = [[int(F(p[0])), int(F(p[1]))] for p in pts]
+        small = all(abs(v) < 2 ** 31 for r in ints for v in r)
+        vals = ints if kind == "listint" else np.array(ints, dtype=np.int32 if (kind == "i32" and small) else np.int64)
+    elif kind == "f32" and exact and f32_exact(flat): vals = np.array(vals, dtype=np.float32)
+    elif kind in ("f64", "i64", "i32", "f32"): vals = np.array(vals, dtype=np.float64)
+    if kind is None: return aa.Grid2D.no_mask(values=vals, shape_native=cont, pixel_scales=1.0)
+    return aa.Grid2D.no_mask(values=vals, shape_native=cont, pixel_scales=(0.5 * cont[0], 1.0 + 0.25 * cont[1]), origin=(float(cont[1]), -float(cont[0])))
 
 class Acc:
     """Coq terms + Python-only verdicts of one run_case"""
@@ -524,22 +657,41 @@ def same_arr(a, b):
 class G2:
     """one 2-D geometry under test: the expected parameters (exact rationals, mask content) and the LIVE objects (a Mask2D and
     the Geometry2D fetched from it once) that a history keeps using"""
-    def __init__(self, aa, shape, s, o, exact, m=None):
+    def __init__(self, aa, shape, s, o, exact, m=None, kinds=None):
         self.aa = aa; self.exact = exact
-        self.H, self.W = H, W = int(shape[0]), int(shape[1])
+        self.H, self.W = H, W = int(shape[0]), int(shape[1]); self.HW = (H, W)
         self.sy, self.sx = sy, sx = F(s[0]), F(s[1]); self.oy, self.ox = oy, ox = F(o[0]), F(o[1])
         self.sh, self.ps, self.org = (H, W), (fl(sy), fl(sx)), (fl(oy), fl(ox))
-        self.ps_pub = self.ps[0] if (sy == sx and (H + W) % 2) else self.ps       # a bare float is widened by convert_pixel_scales_2d
+        # INPUT KINDS: the same values handed over as lists / ndarrays / ints / numpy scalars / float32; every mutable one is fingerprinted
+        self.kinds = kinds = dict(kinds or {}); self.prints = Prints()
+        if kinds:
+            self.sh = self.prints.add([H, W] if kinds.get("sh") == "list" else as_kind((H, W), kinds.get("sh", "int")))
+            self.ps = self.prints.add(as_kind((sy, sx), kinds.get("ps", "tuple"), exact))
+            self.org = self.prints.add(as_kind((oy, ox), kinds.get("org", "tuple"), exact))
+        self.ps_pub = self.ps[0] if (sy == sx and (H + W) % 2 and type(self.ps[0]) is float) else self.ps       # a bare float is widened by convert_pixel_scales_2d
         # an origin equal to the documented default (0.0, 0.0) is NOT passed: the default arguments are exercised
         self.ko = {} if (oy == 0 and ox == 0) else {"origin": self.org}
         self.kos = {} if (oy == 0 and ox == 0) else {"origins": self.org}
         self.m = [list(map(bool, r)) for r in m] if m is not None else [[False] * W for _ in range(H)]
         if m is None: self.mask = aa.Mask2D.all_false(shape_native=self.sh, pixel_scales=self.ps_pub, **self.ko)
-        else: self.mask = aa.Mask2D(mask=np.array(self.m, dtype=bool), pixel_scales=self.ps_pub, **self.ko)
+        else: self.mask = aa.Mask2D(mask=self.prints.add(self.mask_arg()), pixel_scales=self.ps_pub, **self.ko)
         self.geo = self.mask.geometry
-        self.hdr = f"{z2(self.sh)} {q2((sy, sx))} {q2((oy, ox))}"
+        # the Geometry2D constructed DIRECTLY from the arguments (not through a mask): every scalar query is also put to it
+        from autoarray.geometry.geometry_2d import Geometry2D
+        self.direct = Geometry2D(shape_native=self.sh, pixel_scales=self.ps_pub, **self.ko)
+        self.hdr = f"{z2(self.HW)} {q2((sy, sx))} {q2((oy, ox))}"
         self.kw = dict(shape_native=self.sh, pixel_scales=self.ps, **self.ko)
     def g(self, held): return self.geo if held else self.mask.geometry
+    def mask_arg(self):
+        """the current mask content in the representation kinds['mask']: bool ndarray (default) / list of lists of bool / of 0-1 ints /
+        int64 / uint8 / float64 ndarray of 0-1"""
+        k = self.kinds.get("mask", "bool")
+        if k == "list": return [list(r) for r in self.m]
+        if k == "listint": return [[int(b) for b in r] for r in self.m]
+        return np.array(self.m, dtype={"bool": bool, "i64": np.int64, "u8": np.uint8, "f64": np.float64}[k])
+    def coord(self, c, which="c"):
+        """a query coordinate pair in the representation kinds[which], fingerprinted"""
+        return self.prints.add(as_kind((F(c[0]), F(c[1])), self.kinds.get(which, "tuple"), self.exact))
     def mobj(self):
         """the EXPECTED mask object (current content, pixel scales, origin), from the inputs"""
         return f"({cmask(self.m)}, {q2((self.sy, self.sx))}, {q2((self.oy, self.ox))})"
@@ -560,32 +712,36 @@ class G2:
         geo = self.g(held)
         outs = []
         for (a, b) in ((geo.central_pixel_coordinates, geo.central_scaled_coordinates),
+                       (self.direct.central_pixel_coordinates, self.direct.central_scaled_coordinates),
                        (gu.central_pixel_coordinates_2d_from(shape_native=self.sh),
                         gu.central_scaled_coordinate_2d_from(shape_native=self.sh, pixel_scales=self.ps, **self.ko))):
             outs.append(([frac(a[0]), frac(a[1])], [frac(b[0]), frac(b[1])]))
-        return [f"(KCentral2 {self.hdr} {cq(self.tol_p())} {q2(a)} {q2(b)})" for a, b in outs] + self.geo_of(held)[0], str(outs[0]), None
+        d = self.direct
+        gd = f"(KGeoOf {self.mobj()} ({z2(d.shape_native)}, {q2f(d.pixel_scales)}, {q2f(d.origin)}))"
+        return [f"(KCentral2 {self.hdr} {cq(self.tol_p())} {q2(a)} {q2(b)})" for a, b in outs] + self.geo_of(held)[0] + [gd], str(outs[0]), self.prints.ok()
     def extent(self, held=True, fresh_array=True):
-        outs = [self.g(held).extent]
+        outs = [self.g(held).extent, self.direct.extent]
         if fresh_array: outs.append(self.aa.Array2D.no_mask(values=np.zeros(self.sh), pixel_scales=self.ps, **self.ko).geometry.extent)
-        return [f"(KExtent2 {self.hdr} {cq(self.tol_s())} {q4(e)})" for e in outs], str(outs[0]), None
+        return [f"(KExtent2 {self.hdr} {cq(self.tol_s())} {q4(e)})" for e in outs], str(outs[0]), self.prints.ok()
     def extentgrid(self, held=True):
         ext = self.g(held).extent
         objs = [self.aa.Grid2D.uniform(shape_native=self.sh, pixel_scales=self.ps_pub, **self.ko), self.mask.derive_grid.all_false]
         terms = [f"(KExtentGrid {self.hdr} {cq(self.tol_s())} {q4(ext)} {q2list(fr2(np.array(g)))})" for g in objs]
         terms.append(f"(KUniformC {self.hdr} {cq(self.tol_s())} {cgobj(objs[0])})")
         terms.append(f"(KDeriveAllFalseC {self.mobj()} {cq(self.tol_s())} {cgobj(objs[1])})")
-        return terms, str(ext), None
+        return terms, str(ext), self.prints.ok()
     def pix(self, c, held=True):
         from autoarray.geometry import geometry_util as gu
         if self.margin_bad([c]): return None
         geo = self.g(held)
-        pt = (fl(c[0]), fl(c[1]))
+        pt = self.coord(c)
         outs = [geo.pixel_coordinates_2d_from(scaled_coordinates_2d=pt),
-                gu.pixel_coordinates_2d_from(scaled_coordinates_2d=pt, shape_native=self.sh, pixel_scales=self.ps, **self.kos)]
+                gu.pixel_coordinates_2d_from(scaled_coordinates_2d=pt, shape_native=self.sh, pixel_scales=self.ps, **self.kos),
+                self.direct.pixel_coordinates_2d_from(scaled_coordinates_2d=pt)]
         # snapping a coordinate to its pixel centre = index -> centre
         snapped = geo.scaled_coordinate_2d_to_scaled_at_pixel_centre_from(scaled_coordinate_2d=pt)
         back = geo.scaled_coordinates_2d_from(pixel_coordinates_2d=outs[0])
-        ok = bool(tuple(snapped) == tuple(back))
+        ok = bool(tuple(snapped) == tuple(back)) and self.prints.ok()
         terms = [f"(KPix2 {self.hdr} {q2((F(c[0]), F(c[1])))} {z2((int(o[0]), int(o[1])))})" for o in outs]
         pi = (int(outs[0][0]), int(outs[0][1]))
         tsn = cq(self.tol_s(pi[0] * self.sy, pi[1] * self.sx))
@@ -594,11 +750,15 @@ class G2:
         return terms, str(outs[0]), ok
     def scaled(self, p, held=True):
         from autoarray.geometry import geometry_util as gu
-        pp = (fl(p[0]), fl(p[1]))
+        pp = self.coord(p, "p")
         outs = [self.g(held).scaled_coordinates_2d_from(pixel_coordinates_2d=pp),
-                gu.scaled_coordinates_2d_from(pixel_coordinates_2d=pp, shape_native=self.sh, pixel_scales=self.ps, **self.kos)]
+                gu.scaled_coordinates_2d_from(pixel_coordinates_2d=pp, shape_native=self.sh, pixel_scales=self.ps, **self.kos),
+                self.direct.scaled_coordinates_2d_from(pixel_coordinates_2d=pp)]
+        # sibling entry point: Grid2DIrregular.from_pixels_and_mask converts pixel coordinates through mask.geometry
+        irr = np.array(self.aa.Grid2DIrregular.from_pixels_and_mask(pixels=[pp, pp], mask=self.mask))
+        outs += [irr[0], irr[1]]
         tol = cq(self.tol_s(F(p[0]) * self.sy, F(p[1]) * self.sx))
-        return [f"(KScaled2 {self.hdr} {q2((F(p[0]), F(p[1])))} {tol} {q2((frac(o[0]), frac(o[1])))})" for o in outs], str(outs[0]), None
+        return [f"(KScaled2 {self.hdr} {q2((F(p[0]), F(p[1])))} {tol} {q2((frac(o[0]), frac(o[1])))})" for o in outs], str(outs[0]), self.prints.ok()
     def grid(self, kind, G, held=True):
         """kind in gridpixels / gridcentres / gridindexes / gridscaled; G: the Grid2D object that carries the query points (whatever
         its own shape / pixel scales / history); the points are read from it"""
@@ -642,13 +802,14 @@ class G2:
             terms = [f"(KGeoIndexes {self.hdr} {Gobj} ({qlist([frac(v) for v in np.array(R)])}, {cmobj(R.mask)}))"]
             terms += [f"(KGridIndexes {self.hdr} {gq} {qlist([frac(v) for v in o])})" for o in outs[1:] if not same_arr(o.astype(float), outs[0].astype(float))]
         # the caller's objects are left as they were: the Grid2D handed to the method, the array handed to the util function
-        ok = arr_in is not None and same_arr(np.array(G), arr) and same_arr(arr_in, arr)
+        ok = arr_in is not None and same_arr(np.array(G), arr) and same_arr(arr_in, arr) and self.prints.ok()
         return terms, str(outs[0].tolist()), ok
     def gridmask(self, siblings=True):
         """the pixel-centre grid of the CURRENT content of the live mask"""
         from autoarray.structures.grids import grid_2d_util as g2u
         aa, H, W, m = self.aa, self.H, self.W, self.m
-        marr = np.array(m, dtype=bool); marr_in = marr.copy()
+        marr = self.mask_arg() if isinstance(self.mask_arg(), np.ndarray) else np.array(m, dtype=bool)     # the util routine gets an ndarray of the mask's input dtype
+        marr_in = marr.copy()
         objs = [aa.Grid2D.from_mask(mask=self.mask), self.mask.derive_grid.unmasked]
         outs = [np.array(objs[0]), np.array(objs[1]),
                 g2u.grid_2d_slim_via_mask_from(mask_2d=marr_in, pixel_scales=self.ps, **self.ko)]
@@ -659,7 +820,7 @@ class G2:
         terms = [f"(KFromMaskC {self.mobj()} {tol} {cgobj(objs[0])})"]
         if cgobj(objs[1]) != cgobj(objs[0]): terms.append(f"(KDeriveUnmaskedC {self.mobj()} {tol} {cgobj(objs[1])})")
         terms += [f"(KGridMask {cmask(m)} {s} {o} {tol} {q2list(fr2(ou))})" for ou in outs[2:] if not same_arr(ou, outs[0])]
-        ok = same_arr(marr_in, marr) and same_arr(np.array(self.mask), marr)
+        ok = same_arr(marr_in, marr) and same_arr(np.array(self.mask), marr.astype(bool)) and self.prints.ok()
         if siblings:
             # the all-false grids of the same geometry: Grid2D.uniform, derive_grid.all_false, the native form of from_mask
             full = [[False] * W for _ in range(H)]
@@ -669,6 +830,10 @@ class G2:
             un = [(i, j) for i in range(H) for j in range(W) if not m[i][j]]
             ok = ok and bool(nat.shape == (H, W, 2) and all((nat[i, j] == outs[0][k]).all() for k, (i, j) in enumerate(un))
                              and all((nat[i, j] == 0).all() for i in range(H) for j in range(W) if m[i][j]))
+            # the NATIVE util variants: grid_2d_via_mask_from (the slim grid scattered to the mask's pixels) and grid_2d_via_shape_native_from
+            nat2 = g2u.grid_2d_via_mask_from(mask_2d=marr_in, pixel_scales=self.ps, **self.ko)
+            nat3 = g2u.grid_2d_via_shape_native_from(shape_native=self.sh, pixel_scales=self.ps, **self.ko)
+            ok = ok and same_arr(nat2, nat) and same_arr(nat3.reshape(H * W, 2) if nat3.shape == (H, W, 2) else nat3, outs2[0]) and same_arr(marr_in, marr)
         return terms, str(outs[0].tolist()), ok
     def edit(self, at, val):
         """the user's in-place edit of the mask"""
@@ -677,16 +842,29 @@ class G2:
         self.mask[i, j] = bool(val); self.m[i][j] = bool(val)
 
 class G1:
-    def __init__(self, aa, n, s, o, exact, m=None):
+    def __init__(self, aa, n, s, o, exact, m=None, kinds=None):
         self.aa = aa; self.exact = exact; self.n = n = int(n); self.s = s = F(s); self.o = o = F(o)
         self.sh, self.ps, self.org = (n,), (fl(s),), (fl(o),)
+        self.kinds = kinds = dict(kinds or {}); self.prints = Prints()
+        if kinds:
+            self.sh = self.prints.add([n] if kinds.get("sh") == "list" else as_kind((n,), kinds.get("sh", "int")))
+            self.ps = self.prints.add(as_kind((s,), kinds.get("ps", "tuple"), exact))
+            self.org = self.prints.add(as_kind((o,), kinds.get("org", "tuple"), exact))
         self.ko = {} if o == 0 else {"origin": self.org}
         self.kos = {} if o == 0 else {"origins": self.org}
         self.m = list(map(bool, m)) if m is not None else [False] * n
-        self.mask = aa.Mask1D(mask=np.array(self.m, dtype=bool), pixel_scales=self.ps, **self.ko)
+        self.ps_pub = self.ps[0] if (n % 2 and type(self.ps[0]) is float and not kinds) else self.ps      # a bare float is widened by convert_pixel_scales_1d
+        self.mask = aa.Mask1D(mask=self.prints.add(self.mask_arg()), pixel_scales=self.ps_pub, **self.ko)
+        from autoarray.geometry.geometry_1d import Geometry1D
+        self.direct = Geometry1D(shape_native=self.sh, pixel_scales=self.ps, **self.ko)
         self.hdr = f"{cz(n)} {cq(s)} {cq(o)}"
     def tol_s(self, *extra): return tol_of(self.exact, abs(self.o) + self.n * self.s + max([abs(F(e)) for e in extra] + [0]))
     def tol_p(self, *extra): return tol_of(self.exact, self.n + 1 + abs(self.o / self.s) + max([abs(F(e)) for e in extra] + [0]))
+    def mask_arg(self):
+        k = self.kinds.get("mask", "bool")
+        if k == "list": return list(self.m)
+        if k == "listint": return [int(b) for b in self.m]
+        return np.array(self.m, dtype={"bool": bool, "i64": np.int64, "u8": np.uint8, "f64": np.float64}[k])
     def extent_term(self, e): return f"(KExtent1 {self.hdr} {cq(self.tol_s())} {q2((frac(e[0]), frac(e[1])))})"
     def grid_term(self, m, v): return f"(KGrid1Mask {clist([cbool(b) for b in m])} {cq(self.s)} {cq(self.o)} {cq(self.tol_s())} {qlist([frac(x) for x in v])})"
     def mobj(self): return f"({clist([cbool(b) for b in self.m])}, {cq(self.s)}, {cq(self.o)})"
@@ -694,25 +872,29 @@ class G1:
         geo = self.mask.geometry
         e = geo.extent
         gt = f"(KGeoOf1 {self.mobj()} ({cz(geo.shape_native[0])}, {cq(frac(geo.pixel_scales[0]))}, {cq(frac(geo.origin[0]))}))"
-        return [self.extent_term(e), gt], str(e), None
+        return [self.extent_term(e), self.extent_term(self.direct.extent), gt], str(e), self.prints.ok()
     def gridmask(self):
         from autoarray.structures.grids import grid_1d_util as g1u
-        marr = np.array(self.m, dtype=bool); marr_in = marr.copy()
+        marr = self.mask_arg() if isinstance(self.mask_arg(), np.ndarray) else np.array(self.m, dtype=bool)
+        marr_in = marr.copy()
         G = self.aa.Grid1D.from_mask(mask=self.mask)
         outs = [np.array(G), g1u.grid_1d_slim_via_mask_from(mask_1d=marr_in, pixel_scales=self.ps, **self.ko)]
         terms = [self.grid_term(self.m, ou) for ou in outs]
         terms.append(f"(KFromMask1C {self.mobj()} {cq(self.tol_s())} {cg1obj(G)})")
-        return terms, str(outs[0].tolist()), same_arr(marr_in, marr) and same_arr(np.array(self.mask), marr)
+        return terms, str(outs[0].tolist()), same_arr(marr_in, marr) and same_arr(np.array(self.mask), marr.astype(bool)) and self.prints.ok()
     def uniform(self):
         from autoarray.structures.grids import grid_1d_util as g1u
-        U = self.aa.Grid1D.uniform(shape_native=self.sh, pixel_scales=self.ps, **self.ko)
+        U = self.aa.Grid1D.uniform(shape_native=self.sh, pixel_scales=self.ps_pub, **self.ko)
         u = np.array(U)
         u2 = g1u.grid_1d_slim_via_shape_slim_from(shape_slim=self.sh, pixel_scales=self.ps, **self.ko)
         terms = [self.grid_term([False] * self.n, u), self.grid_term([False] * self.n, u2), f"(KUniform1C {self.hdr} {cq(self.tol_s())} {cg1obj(U)})"]
         for inv in (False, True):
-            A = self.aa.Mask1D.all_false(shape_slim=self.sh, pixel_scales=self.ps, **self.ko, invert=inv)
+            A = self.aa.Mask1D.all_false(shape_slim=self.sh, pixel_scales=self.ps_pub, **self.ko, invert=inv)
             terms.append(f"(KAllFalse1C {self.hdr} {cbool(inv)} {cm1obj(A)})")
-        return terms, str(u.tolist()), None
+        # sibling constructor Grid1D.uniform_from_zero: the pixel centres of the origin-0 geometry shifted so that the first is 0, i.e. k * s
+        Z0 = self.aa.Grid1D.uniform_from_zero(shape_native=self.sh, pixel_scales=self.ps_pub)
+        terms.append(f"(KUniformFromZero1 {cz(self.n)} {cq(self.s)} {cq(tol_of(self.exact, self.n * self.s))} {cg1obj(Z0)})")
+        return terms, str(u.tolist()), self.prints.ok()
     def edit(self, at, val):
         if val and sum(1 for b in self.m if not b) == 1 and not self.m[at]: return
         self.mask[at] = bool(val); self.m[at] = bool(val)
@@ -744,6 +926,32 @@ def run_case(inp):
         if op == "gridmask": return finish(g2.gridmask())
         return finish(g2.grid(op, grid_obj(aa, inp["g"], inp.get("cont"))))
 
+    if op == "kinds":
+        # the SAME argument objects serve every call of the case (a second call sees whatever a first call did to them)
+        g2 = G2(aa, inp["shape"], inp["s"], inp["o"], exact, m=inp["m"], kinds=inp["kinds"])
+        acc = Acc()
+        steps = [lambda: g2.central(True), lambda: g2.extent(False), lambda: g2.extentgrid(True), lambda: g2.gridmask()]
+        def with_kind(which, k, f):
+            g2.kinds[which] = k
+            return f()
+        steps += [(lambda c=c, i=i: with_kind("c", inp["ck"][i % len(inp["ck"])], lambda: g2.pix(c, bool(i % 2)))) for i, c in enumerate(inp["pts"][:4])]
+        steps += [(lambda p=p, i=i: with_kind("p", inp["pk"][i % len(inp["pk"])], lambda: g2.scaled(p, bool(i % 2)))) for i, p in enumerate(inp["pix"])]
+        gk = inp["gk"]; c0, c1 = inp["cont"]
+        steps += [lambda: g2.grid("gridpixels", grid_obj(aa, inp["pts"], c0, gk[0], exact)), lambda: g2.grid("gridcentres", grid_obj(aa, inp["pts"], c0, gk[1], exact), False),
+                  lambda: g2.grid("gridindexes", grid_obj(aa, inp["pts"], c0, gk[2], exact)), lambda: g2.grid("gridscaled", grid_obj(aa, inp["pix"], c1, gk[3], exact), False),
+                  lambda: g2.extent(True), lambda: g2.gridmask(siblings=False)]
+        for st in steps:
+            r = st()
+            if r is None: acc.skipped += 1; continue
+            acc.add(*r)
+        return done(acc.terms, acc.out, acc.py_ok())
+
+    if op == "kinds1":
+        g1 = G1(aa, inp["n"], inp["s"], inp["o"], exact, m=inp["m"], kinds=inp["kinds"])
+        acc = Acc()
+        for st in (g1.extent, g1.gridmask, g1.uniform, g1.gridmask, g1.extent): acc.add(*st())
+        return done(acc.terms, acc.out, acc.py_ok())
+
     if op == "session":
         pool = [G2(aa, o["shape"], o["s"], o["o"], exact, m=o["m"]) for o in inp["objs"]]
         acc = Acc()
@@ -756,6 +964,14 @@ def run_case(inp):
             elif do == "pix": r = g2.pix(st["c"], held)
             elif do == "scaled": r = g2.scaled(st["p"], held)
             elif do == "grid": r = g2.gridmask(siblings=False)
+            elif do == "regrid":
+                kind = {"gc": "gridcentres", "gi": "gridindexes", "gp": "gridpixels"}[st["which"]]
+                G = grid_obj(aa, st["g"], st["cont"])
+                r = g2.grid(kind, G, held)
+                if r is None: acc.skipped += 1
+                else: acc.add(*r)
+                for k, pnt in enumerate(st["g2"]): G[k] = (fl(pnt[0]), fl(pnt[1]))
+                r = g2.grid(kind, G, held)
             else: r = g2.grid({"gc": "gridcentres", "gi": "gridindexes", "gp": "gridpixels", "gs": "gridscaled"}[do], grid_obj(aa, st["g"], st["cont"]), held)
             if r is None: acc.skipped += 1; continue
             acc.add(*r)
@@ -883,50 +1099,60 @@ def run_case(inp):
         inv = bool(inp.get("invert", False))
         hdr = f"{z2(sh)} {q2((sy, sx))}"
         cc = q2((cy, cx))
-        kw = dict(shape_native=sh, pixel_scales=ps, **({} if (cy == 0 and cx == 0) else {"centre": ctr}))     # defaults are not passed
-        korg = {} if org == (0.0, 0.0) else {"origin": org}
-        kwp = dict(kw, pixel_scales=ps[0]) if (sy == sx and (H + W) % 2) else dict(kw)      # public entry point: bare float scale
+        kd = inp.get("kinds") or {}
+        prints = Prints()
+        a_sh, a_ps, a_ctr, a_org = sh, ps, ctr, org
+        if kd:
+            ex = exact and inp.get("mag", 0) == 0
+            a_sh = prints.add([H, W] if kd["sh"] == "list" else as_kind((H, W), kd["sh"]))
+            a_ps = prints.add(as_kind((sy, sx), kd["ps"], ex)); a_ctr = prints.add(as_kind((cy, cx), kd["c"], ex))
+            a_org = prints.add(as_kind((F(inp["origin"][0]), F(inp["origin"][1])), kd["origin"], ex))
+            fl_r = lambda x: scalar_kind(x, kd["r"], ex)
+        else: fl_r = fl
+        kw = dict(shape_native=a_sh, pixel_scales=a_ps, **({} if (cy == 0 and cx == 0) else {"centre": a_ctr}))     # defaults are not passed
+        korg = {} if org == (0.0, 0.0) else {"origin": a_org}
+        kwp = dict(kw, pixel_scales=ps[0]) if (sy == sx and (H + W) % 2 and not kd) else dict(kw)      # public entry point: bare float scale
         kwp.update(**korg, **({"invert": True} if inv else {}))
         ctail = f"{q2((sy, sx))} {q2((F(inp['origin'][0]), F(inp['origin'][1])))} {cc} {cbool(inv)}"      # pixel_scales origin centre invert
         if op == "circ":
             r = F(inp["r"][0])
-            outs = [aa.Mask2D.circular(radius=fl(r), **kwp), mu.mask_2d_circular_from(radius=fl(r), **kw)]
+            outs = [aa.Mask2D.circular(radius=fl_r(r), **kwp), mu.mask_2d_circular_from(radius=fl_r(r), **kw)]
             mk = lambda o: f"(KCirc {hdr} {cq(r)} {cc} {cmask(o)})"
             mkc = lambda M: f"(KCircC {z2(sh)} {cq(r)} {ctail} {cmobj(M)})"
         elif op == "ann":
             a, b = F(inp["r"][0]), F(inp["r"][1])
-            outs = [aa.Mask2D.circular_annular(inner_radius=fl(a), outer_radius=fl(b), **kwp),
-                    mu.mask_2d_circular_annular_from(inner_radius=fl(a), outer_radius=fl(b), **kw)]
+            outs = [aa.Mask2D.circular_annular(inner_radius=fl_r(a), outer_radius=fl_r(b), **kwp),
+                    mu.mask_2d_circular_annular_from(inner_radius=fl_r(a), outer_radius=fl_r(b), **kw)]
             mk = lambda o: f"(KAnn {hdr} {cq(a)} {cq(b)} {cc} {cmask(o)})"
             mkc = lambda M: f"(KAnnC {z2(sh)} {cq(a)} {cq(b)} {ctail} {cmobj(M)})"
         elif op == "anti":
             a, b, c3 = (F(v) for v in inp["r"])
-            outs = [aa.Mask2D.circular_anti_annular(inner_radius=fl(a), outer_radius=fl(b), outer_radius_2=fl(c3), **kwp),
-                    mu.mask_2d_circular_anti_annular_from(inner_radius=fl(a), outer_radius=fl(b), outer_radius_2_scaled=fl(c3), **kw)]
+            outs = [aa.Mask2D.circular_anti_annular(inner_radius=fl_r(a), outer_radius=fl_r(b), outer_radius_2=fl_r(c3), **kwp),
+                    mu.mask_2d_circular_anti_annular_from(inner_radius=fl_r(a), outer_radius=fl_r(b), outer_radius_2_scaled=fl_r(c3), **kw)]
             mk = lambda o: f"(KAnti {hdr} {cq(a)} {cq(b)} {cq(c3)} {cc} {cmask(o)})"
             mkc = lambda M: f"(KAntiC {z2(sh)} {cq(a)} {cq(b)} {cq(c3)} {ctail} {cmobj(M)})"
         elif op == "ell":
             R, q, ang, co, si = (F(v) for v in inp["ell"][0])
             check_cs(ang, co, si)
-            outs = [aa.Mask2D.elliptical(major_axis_radius=fl(R), axis_ratio=fl(q), angle=fl(ang), **kwp),
-                    mu.mask_2d_elliptical_from(major_axis_radius=fl(R), axis_ratio=fl(q), angle=fl(ang), **kw)]
+            outs = [aa.Mask2D.elliptical(major_axis_radius=fl_r(R), axis_ratio=fl_r(q), angle=fl_r(ang), **kwp),
+                    mu.mask_2d_elliptical_from(major_axis_radius=fl_r(R), axis_ratio=fl_r(q), angle=fl_r(ang), **kw)]
             mk = lambda o: f"(KEll {hdr} {cq(R)} {cq(q)} {q2((co, si))} {cc} {cmask(o)})"
             mkc = lambda M: f"(KEllC {z2(sh)} {cq(R)} {cq(q)} {q2((co, si))} {ctail} {cmobj(M)})"
         else:
             (Ri, qi, ai, ci, si_), (Ro, qo, ao, co, so) = [[F(v) for v in e] for e in inp["ell"]]
             check_cs(ai, ci, si_); check_cs(ao, co, so)
-            k2 = dict(inner_major_axis_radius=fl(Ri), inner_axis_ratio=fl(qi), inner_phi=fl(ai),
-                      outer_major_axis_radius=fl(Ro), outer_axis_ratio=fl(qo), outer_phi=fl(ao))
+            k2 = dict(inner_major_axis_radius=fl_r(Ri), inner_axis_ratio=fl_r(qi), inner_phi=fl_r(ai),
+                      outer_major_axis_radius=fl_r(Ro), outer_axis_ratio=fl_r(qo), outer_phi=fl_r(ao))
             outs = [aa.Mask2D.elliptical_annular(**k2, **kwp), mu.mask_2d_elliptical_annular_from(**k2, **kw)]
             mk = lambda o: f"(KEllAnn {hdr} {cq(Ri)} {cq(qi)} {q2((ci, si_))} {cq(Ro)} {cq(qo)} {q2((co, so))} {cc} {cmask(o)})"
             mkc = lambda M: f"(KEllAnnC {z2(sh)} {cq(Ri)} {cq(qi)} {q2((ci, si_))} {cq(Ro)} {cq(qo)} {q2((co, so))} {ctail} {cmobj(M)})"
         pub = outs[0]
-        ok = bool(tuple(pub.origin) == org and tuple(pub.pixel_scales) == ps and tuple(pub.shape_native) == sh)
+        ok = bool(tuple(pub.origin) == org and tuple(pub.pixel_scales) == ps and tuple(pub.shape_native) == sh) and prints.ok()
         pubm = np.array(pub).astype(bool)
         # the util routine's array, and the OBJECT the public constructor returned (content -- complemented when invert=True --, pixel scales, origin)
         utilm = np.array(outs[1]).astype(bool)
         terms = [mkc(pub)] + ([] if same_arr(utilm, ~pubm if inv else pubm) else [mk(utilm)])      # the util array is judged separately only where it differs
-        af = aa.Mask2D.all_false(shape_native=sh, pixel_scales=kwp["pixel_scales"], **korg, invert=inv)
+        af = aa.Mask2D.all_false(shape_native=a_sh, pixel_scales=kwp["pixel_scales"], **korg, invert=inv)
         terms.append(f"(KAllFalseC {z2(sh)} {q2((sy, sx))} {q2((F(inp['origin'][0]), F(inp['origin'][1])))} {cbool(inv)} {cmobj(af)})")
         # the pixel-centre grid of the constructed mask is placed with the mask's origin
         gt = G2(aa, sh, (sy, sx), (F(inp["origin"][0]), F(inp["origin"][1])), exact, m=pubm.tolist())
@@ -935,7 +1161,8 @@ def run_case(inp):
             t2, _, ok2 = gt.gridmask(siblings=False); terms += t2; ok = ok and ok2
         terms += gt.extent(False, fresh_array=False)[0]
         # mask_2d_centres_from: the pixel position of the requested centre
-        mc = mu.mask_2d_centres_from(shape_native=sh, pixel_scales=ps, centre=ctr)
+        mc = mu.mask_2d_centres_from(shape_native=a_sh, pixel_scales=a_ps, centre=a_ctr)
+        ok = ok and prints.ok()
         tolp = tol_of(exact, max(H, W) + 1 + max(abs(cy / sy), abs(cx / sx)))
         terms.append(f"(KMaskCentres {hdr} {cc} {cq(tolp)} {q2((frac(mc[0]), frac(mc[1])))})")
         return done(terms, str(pubm.astype(int).tolist()), ok)
